@@ -17,7 +17,7 @@ use p2panda_stream::orderer::Orderer;
 use p2panda_stream::Processor;
 
 use crate::minv::MinV;
-use crate::gate::{drive_next, key, make_item, pending_rows, ready_rows, wipe, Ctl, Ctx, Fired, Gate, Item, NextEnd};
+use crate::gate::{take_trouble, too_much_trouble, trouble, drive_next, key, make_item, pending_rows, ready_rows, wipe, Ctl, Ctx, Fired, Gate, Item, NextEnd};
 
 #[derive(Clone, Debug, PartialEq, Eq, Hash)]
 struct Hist {
@@ -101,6 +101,8 @@ struct Obs {
     error: Option<String>,
     hang: Option<String>,
     during_completed_first_poll: u64,
+    /// not executed: the exploration was cut short (see gate::TROUBLE)
+    skipped: bool,
 }
 
 async fn run_hist(store: &SqliteStore, h: &Hist, ch: &Chooser) -> Obs {
@@ -207,16 +209,36 @@ async fn run_hist(store: &SqliteStore, h: &Hist, ch: &Chooser) -> Obs {
 }
 
 fn exec(h: &Hist, ch: &Chooser) -> Obs {
+    if too_much_trouble() {
+        return Obs {
+            skipped: true,
+            ..Default::default()
+        };
+    }
     let ctx = Ctx::take();
     let store = ctx.store();
-    let r = catch(|| ctx.rt.block_on(run_hist(&store, h, ch)));
+    let r = catch(|| {
+        ctx.rt().block_on(async {
+            match tokio::time::timeout(Duration::from_secs(20), run_hist(&store, h, ch)).await {
+                Ok(o) => o,
+                Err(_) => Obs {
+                    hang: Some("the history did not finish within 20 s".into()),
+                    ..Default::default()
+                },
+            }
+        })
+    });
     match r {
         Ok(o) => {
             let clean = o.error.is_none() && o.hang.is_none();
+            if !clean {
+                trouble();
+            }
             ctx.give_back(clean);
             o
         }
         Err(p) => {
+            trouble();
             ctx.give_back(false);
             Obs {
                 error: Some(format!("panic: {p}")),
@@ -231,6 +253,9 @@ fn point(f: &Fired) -> String {
 }
 
 fn judge(mv: &mut MinV, h: &Hist, ch: &Chooser, o: &Obs, table: &mut BTreeMap<String, (u64, u64)>) {
+    if o.skipped {
+        return;
+    }
     let replay = || h.to_json(&ch.vector());
     let ctx = || format!("{}; what happened: {}; rows of orderer_ready_v1 (node, in_queue): {:?}", h.describe(), o.script.join(" "), o.rows);
     let size = (o.cancels.len() as u64, h.order.len() as u64, o.script.len() as u64 + if h.drain_each { 1 } else { 0 });
@@ -333,13 +358,14 @@ struct Part {
 fn parts(thorough: bool) -> Vec<Part> {
     if thorough {
         vec![
-            Part { name: "all processing orders, up to 2 cancellations", shapes: vec!["single", "chain2", "chain3", "fork3", "diamond4"], all_orders: true, max_cancels: 2, wall: 330 },
-            Part { name: "small graphs, up to 3 cancellations", shapes: vec!["single", "chain2", "fork3"], all_orders: false, max_cancels: 3, wall: 200 },
+            Part { name: "graphs of up to 3 items, every processing order, up to 2 cancellations", shapes: vec!["single", "chain2", "chain3", "fork3"], all_orders: true, max_cancels: 2, wall: 240 },
+            Part { name: "diamond4, forward/reverse processing order, up to 2 cancellations", shapes: vec!["diamond4"], all_orders: false, max_cancels: 2, wall: 120 },
+            Part { name: "single/chain2, forward/reverse processing order, up to 3 cancellations", shapes: vec!["single", "chain2"], all_orders: false, max_cancels: 3, wall: 180 },
         ]
     } else {
         vec![
-            Part { name: "single/chain2/fork3, forward/reverse processing order, up to 2 cancellations", shapes: vec!["single", "chain2", "fork3"], all_orders: false, max_cancels: 2, wall: 25 },
-            Part { name: "chain3, forward/reverse processing order, 1 cancellation", shapes: vec!["chain3"], all_orders: false, max_cancels: 1, wall: 10 },
+            Part { name: "single/chain2/fork3, forward/reverse processing order, up to 2 cancellations", shapes: vec!["single", "chain2", "fork3"], all_orders: false, max_cancels: 2, wall: 90 },
+            Part { name: "chain3, forward/reverse processing order, 1 cancellation", shapes: vec!["chain3"], all_orders: false, max_cancels: 1, wall: 30 },
         ]
     }
 }
@@ -399,7 +425,7 @@ fn rerun(h: &Hist, vector: Vec<u32>) -> Option<(Hist, Chooser, Obs)> {
 
 pub fn run(mut rep: Report) -> i32 {
     let thorough = rep.thorough();
-    rep.rule = "one execution = one history (graph single/chain2/chain3/fork3, thorough also diamond4; processing order; `next` after every process or only at the end) with up to 2 (thorough: also 3 on the small graphs) cancellations of `next`, each at one store call of that `next` (begin, take_next_ready, commit, get_operation) in variant before/during/after; non-trivial = at least one cancellation was injected (the `next` future was dropped at an await point)".into();
+    rep.rule = "one execution = one history (graph single/chain2/chain3/fork3, thorough also diamond4; processing order; `next` after every process or only at the end) with up to 2 (thorough: also 3 on single/chain2) cancellations of `next`, each at one store call of that `next` (begin, take_next_ready, commit, get_operation) in variant before/during/after; non-trivial = at least one cancellation was injected (the `next` future was dropped at an await point)".into();
     let mut table: BTreeMap<String, (u64, u64)> = BTreeMap::new();
     let mut mv = MinV::new();
 
@@ -444,6 +470,9 @@ pub fn run(mut rep: Report) -> i32 {
                 (h, o)
             },
             |ch, (h, o)| {
+                if o.skipped {
+                    return;
+                }
                 *fpr += o.during_completed_first_poll;
                 if !o.cancels.is_empty() {
                     rep_ref.nontrivial(&(pi, ch.vector()));
@@ -458,6 +487,7 @@ pub fn run(mut rep: Report) -> i32 {
         );
         rep.absorb_dfs(part.name, &st, part.max_cancels);
     }
+    let cut_short = take_trouble();
     mv.confirm(&mut rep, |rp| match Hist::from_json(rp).and_then(|(h, v)| rerun(&h, v)) {
         Some((h, ch, o)) => {
             let mut m = MinV::new();
@@ -468,6 +498,9 @@ pub fn run(mut rep: Report) -> i32 {
         None => vec![],
     });
     Ctx::drain_pool();
+    if cut_short {
+        rep.not_exhaustive("exploration cut short after 24 executions ended in a hang, panic or store error (each is reported as a violation)");
+    }
     mv.flush(&mut rep);
     let t: BTreeMap<String, Value> = table
         .iter()
